@@ -39,6 +39,11 @@ def build_cli(cfg):
                              ldflags=['-Wl,' + ','.join('--wrap=' + w for w in CLI_WRAPS)])
 
 
+def build_masked(cfg):
+    return cfg.build_harness('masked', [os.path.join(W, 'masked.cpp'), os.path.join(S, 'tape_trng.c')],
+                             link_objs=cfg.lib_without('ascon-trng-mixer.c'))
+
+
 RNG_SEAM = dict(extra_src=[os.path.join(S, 'simrng.c')], ldflags=['-Wl,--wrap=getrandom'])
 
 WORLDS = {
@@ -47,6 +52,7 @@ WORLDS = {
     'prng': dict(RNG_SEAM),
     'cli': dict(build=build_cli),
     'bytes': {},
+    'masked': dict(build=build_masked),
 }
 
 
@@ -199,7 +205,29 @@ def check_C20(tier, seed):
     return o.finish()
 
 
+def check_C10(tier, seed):
+    o = D.Outcome('C10', tier, seed)
+    o.components = dict(real=COMPONENTS_LIB['real'] + ['masked word/state/key/AEAD code of the configured backend (x86-64 assembly, 64-bit C, 32-bit C)'],
+                        stub=['ascon_trng_init/_free/_generate_32/_generate_64/_reseed replaced at link time by a tape reader '
+                              '(zero, ones, constant, period-2/3, counter, random, adversarial = the secret being masked); ascon-trng-mixer.c is not linked'])
+    o.assumptions = ['values are observed only through the public store/extract/copy_to_x1 functions (the rotation scheme is not baked into the harness)',
+                     'unmasked counterparts are the library\'s own ascon_permute and one-shot AEAD functions',
+                     '"changes every share" is judged only on the random tape and only when the words drawn during the call are pairwise distinct and non-zero',
+                     'replace() is generated with sizes 0..7, store_partial/load_partial with 1..7 (documented ranges)']
+    if tier == 'quick':
+        cfgs = [('asm', (4, 2, 4), 30000), ('c64', (3, 3, 3), 12000), ('c32', (2, 1, 2), 12000), ('c64', (4, 4, 4), 8000), ('c32', (4, 3, 4), 8000)]
+    else:
+        cfgs = [(be, sh, 40000) for be in ('asm', 'c64', 'c32') for sh in B.ALL_SHARES]
+    for be, sh, n in cfgs:
+        exe = world_exe('masked', be, sh, 'rel')
+        o.add(D.run_batch(exe, n, tier, seed, label='masked@%s-%d%d%d' % (be, *sh), crash_prop='C12'))
+    o.extra['distinct_states_measure'] = 'visited (operation, share count[, conversion target, size, round, in-place]) tuples per configuration'
+    o.extra['configurations'] = ['%s-%d%d%d' % (be, *sh) for be, sh, n in cfgs]
+    return o.finish()
+
+
 CHECKS = {
+    'C10': check_C10,
     'C20': check_C20,
     'C19': check_C19,
     'C15': check_C15,
@@ -215,4 +243,9 @@ SETUP_BUILDS = [
     lambda: world_exe('cli'),
     lambda: world_exe('bytes'),
     lambda: world_exe('bytes', 'asm', (4, 2, 4), 'nostl'),
+    lambda: world_exe('masked'),
+    lambda: world_exe('masked', 'c64', (3, 3, 3)),
+    lambda: world_exe('masked', 'c32', (2, 1, 2)),
+    lambda: world_exe('masked', 'c64', (4, 4, 4)),
+    lambda: world_exe('masked', 'c32', (4, 3, 4)),
 ]
